@@ -16,6 +16,11 @@ INFO = {
  "S-C14-1": ("C14", "estimate_minor accumulates candidate variants into gene.random_mutations in place", "two minor-stage calls on one Gene object, or comparing the catalogue with a fresh load", "caught as written"),
  "S-C15-1": ("C15", "major._filter_alleles applies the first threshold on the unfiltered coverage", "a site with exactly one qualifying reference read plus low-quality reads", "missed at first; caught after the lone-reference-read deviation was added to C15"),
  "S-C16-1": ("C16", "VCF deletion op built from the record's REF instead of the RefSeq-derived reference", "a deletion record whose REF differs from the reference in a deleted base", "missed at first; caught after the 'delref' encoding was added to C16"),
+ "S-C02-2": ("C02", "Coverage.single_copy cached on the evidence object keyed by the variant only (the structure is ignored); filtered copies share the cache", "the same Coverage object solved under two structures whose copy number differs at a core-variant site (what genotype() does when structures compete)", "missed at first (a fresh evidence object per state); caught after a third of the C02 states first solve the same evidence object under another structure"),
+ "S-C07-2": ("C07", "shipped profile YAMLs parsed through functools.lru_cache; the custom-neutral-region branch edits the shared dict", "one process, illumina/wgs profile, a load with a custom neutral region followed by a load with the default region", "missed by C07 (generated profiles only); caught by C14's profile/sample-load histories through the shipped profile"),
+ "S-C12-2": ("C12", "write_vcf keeps the deletion anchor offset for every later record", "VCF output of a solution with a plain deletion and any variant at a higher position", "caught as written"),
+ "S-C16-2": ("C16", "the VCF MNV fold-up deletes all support of a component substitution instead of the folded copies", "a catalogued MNV whose first base change is also catalogued as a substitution of its own, with different zygosity of the two", "missed at first; caught after the richd table got a substitution equal to the MNV's first base change (*17) and C16 moved to that table"),
+ "S-C17-2": ("C17", "re-introduces the aliasing of the dumped reference lists (reverts the D14 fix)", "reads with a deletion in a gene region outside the RefSeq mapping, run then replay", "caught as written (evidence-level replay oracle)"),
  "S-C01-2": ("C01", "the generated N-padded reference for indel realignment is cached per process keyed by (contig name, length)", "two genotyping calls in one process for different genes on the same contig, the second sample carrying a catalogued indel", "caught as written (worker processes evaluate several generated databases on contig 7)"),
  "S-C03-2": ("C03", "estimate_cn checks the no-copy-number fallback before the user-supplied structure", "a user-supplied list other than 1,1 for a gene without structural alleles or with the exome profile", "missed at first; caught after user lists on genes without copy-number calling (CYP2C19, G6PD, toy in exome mode) were added to C03"),
  "S-C06-2": ("C06", "Sample.__init__ takes the multi-substitution table from a module-level cache keyed by gene name", "two Samples of same-named genes with different MNV sites in one process, the later one with reads showing a complete MNV", "caught as written (file states of both builds share worker processes)"),
